@@ -334,6 +334,19 @@ impl RuntimeData {
                 }
             }
         }
+        // an open upvalue is linked from the list of open upvalues as long as the variable it refers to is
+        // on the stack, whether or not a closure still refers to it
+        let mut open_upvalue = self.open_upvalues;
+        while let Some(t) = unsafe { open_upvalue.as_mut() } {
+            open_upvalue = match &t.body {
+                CaoLangObjectBody::Upvalue(u) => u.next,
+                _ => std::ptr::null_mut(),
+            };
+            if !matches!(t.marker, GcMarker::Protected) {
+                t.marker = GcMarker::Gray;
+            }
+            progress_tracker.push(t);
+        }
         // a closure that is being executed may be referenced by its call frame only
         for frame in self.call_stack.iter() {
             if !frame.closure.is_null() {
